@@ -20,6 +20,22 @@ def make_init(name, hints, fmt=1):
     return (name, setup, m)
 
 
+def make_init_populated(name, hints, fmt=1):
+    """non-initial start: two dimensions, a variable and three attributes on the file and on the variable, all defined in the
+    session the exploration continues in (the name tables are then in insertion order, not in the order a reopen rebuilds)"""
+    m = FileModel(fmt)
+    ops = [dict(op='def_dim', name='a', len=2), dict(op='def_dim', name='ab', len=2), dict(op='def_var', name='a', xtype=D.NC_INT, dims=[0])]
+    for v in (-1, 0):
+        for k, n in enumerate(['a', 'ab', E_COMPOSED]): ops.append(dict(op='put_att', v=v, name=n, xtype=D.NC_INT, vals=[k + 1, k + 2]))
+    for o in ops:
+        rcs, st = m.apply(o); assert 0 in rcs, o
+        m = st
+    def setup(c, hints=hints, fmt=fmt):
+        c.op('*', 'create', f=0, path='a.nc', fmt=fmt, hints=hints)
+        for o in ops: emit_std(c, '*', o, None)
+    return (name, setup, m)
+
+
 def emit(c, ranks, o, model):
     if o['op'] == 'reopen':
         c.op(ranks, 'close', f=0)
@@ -43,7 +59,7 @@ def alphabet_for(thorough):
             A.append(dict(op='put_att', v=v, name='ab', xtype=D.NC_DOUBLE, vals=[]))          # zero length
             if thorough: A.append(dict(op='put_att', v=v, name='a', xtype=D.NC_INT, vals=[1, 2, 3, 4, 5]))   # larger
             A.append(dict(op='put_att', v=v, name=E_DECOMPOSED, xtype=D.NC_INT, vals=[9]))
-            for n in ['a', 'ab']: A.append(dict(op='del_att', v=v, name=n))
+            for n in ['a', 'ab', E_DECOMPOSED]: A.append(dict(op='del_att', v=v, name=n))
             for (n, nn) in [('a', 'b'), ('a', 'ab'), ('ab', 'a'), ('a', 'a'), ('ab', 'zzz'), (E_DECOMPOSED, 'c')]:
                 A.append(dict(op='rename_att', v=v, name=n, newname=nn))
         if m.vars:
@@ -84,12 +100,12 @@ def main(tier=None):
     thorough = ck.tier == 'thorough'
     H1 = 'nc_hash_size_dim=1;nc_hash_size_var=1;nc_hash_size_gattr=1;nc_hash_size_vattr=1'
     H2 = 'nc_hash_size_dim=2;nc_hash_size_var=2;nc_hash_size_gattr=2;nc_hash_size_vattr=2'
-    inits = [make_init('hash1', H1), make_init('default', None, 5)] + ([make_init('hash2', H2, 2)] if thorough else [])
+    inits = [make_init('hash1', H1), make_init('default', None, 5), make_init_populated('hash1-populated', H1)] + ([make_init('hash2', H2, 2), make_init_populated('hash2-populated', H2, 5)] if thorough else [])
     bfs = HistoryBFS(ck, b['vx'], inits, alphabet_for(thorough), maxdepth=4 if thorough else 3, reps=1, emit=emit, extra_judge=extra_judge)
     bfs.run(deadline=time.time() + (1700 if thorough else 200))
     ck.cov['distinct_nontrivial'] = ck.cov.get('states', 0)
     ck.cov['rule'] = ('BFS over def_dim/def_var/put_att (overwrite smaller/equal/larger, other type, zero length)/rename_dim/rename_var/rename_att/copy_att/del_att/enddef/redef/close+open with a name alphabet built to collide '
-                      '(hash table sizes 1, 2 and default via hints; composed vs decomposed UTF-8 of one NFC string; NC_MAX_NAME); after every transition the full inquiry sweep (objects, ids, order, names, types, lengths, values, '
+                      '(hash table sizes 1, 2 and default via hints; started from the empty file and from a populated define-mode session with three attributes per object; composed vs decomposed UTF-8 of one NFC string; NC_MAX_NAME); after every transition the full inquiry sweep (objects, ids, order, names, types, lengths, values, '
                       'lookup by name vs by id) is compared with the sequential model; data-mode changes and reopen are also checked in the decoded file header')
     ck.assumptions += ['depth bound %d' % bfs.maxdepth]
     runner.cleanup()
